@@ -4,6 +4,7 @@ import (
 	"fmt"
 	"math/big"
 	"regexp"
+	"strconv"
 	"strings"
 
 	sdk "github.com/cosmos/cosmos-sdk/types"
@@ -167,8 +168,71 @@ func (c *Checker) checkC16Msg(msg sdk.Msg, ok bool) {
 			if _, has := c.iriID[iri]; !has {
 				c.report("C16", "anchored-iri-without-id", "Anchor returned IRI "+iri+" which has no DataID row", nil)
 			}
+			if m.ContentHash != nil {
+				if want, err := m.ContentHash.ToIRI(); err == nil {
+					c.requireAnchored("Anchor", want)
+				}
+			}
+		}
+	case *data.MsgAttest:
+		// a successful Attest leaves EVERY content hash of the message anchored and attested by the signer
+		if ok {
+			c.hit("C16")
+			signer := c.key(m.Attestor)
+			for _, ch := range m.ContentHashes {
+				iri, err := ch.ToIRI()
+				if err != nil {
+					continue
+				}
+				id, has := c.requireAnchored("Attest", iri)
+				if !has {
+					continue
+				}
+				if c.post.DataAttest[id+"/"+signer] == nil {
+					c.report("C16", "attest-succeeded-without-record", fmt.Sprintf("Attest by %s succeeded but %s has no attestation by the signer", signer, iri), nil)
+				}
+			}
+			if len(m.ContentHashes) > 1 {
+				c.Counters["c16_attest_multi_hash"]++
+			}
 		}
 	}
+	if m, isReg := msg.(*data.MsgRegisterResolver); isReg && ok {
+		// a successful RegisterResolver leaves EVERY content hash of the message anchored and registered
+		for _, ch := range m.ContentHashes {
+			iri, err := ch.ToIRI()
+			if err != nil {
+				continue
+			}
+			id, has := c.requireAnchored("RegisterResolver", iri)
+			if !has {
+				continue
+			}
+			if !c.post.DataResolver[id+"/"+strconv.FormatUint(m.ResolverId, 10)] {
+				c.report("C16", "register-succeeded-without-record", fmt.Sprintf("RegisterResolver succeeded but %s is not registered to resolver %d", iri, m.ResolverId), nil)
+			}
+		}
+	}
+}
+
+// requireAnchored reports when, after a successful data message, the IRI has no id row or no anchor row.
+func (c *Checker) requireAnchored(what, iri string) (string, bool) {
+	id := ""
+	for _, k := range sortedStr(c.post.DataIDs) {
+		if c.post.DataIDs[k] == iri {
+			id = k
+			break
+		}
+	}
+	if id == "" {
+		c.report("C16", "succeeded-without-id", what+" succeeded but "+iri+" has no DataID row", nil)
+		return "", false
+	}
+	if c.post.DataAnchors[id] == nil {
+		c.report("C16", "succeeded-without-anchor", what+" succeeded but "+iri+" has no anchor row", nil)
+		return id, false
+	}
+	return id, true
 }
 
 // ---------------------------------------------------------------------------------------------
